@@ -541,6 +541,125 @@ func longFamilies(emit func(Case)) {
 }
 
 // ---------------------------------------------------------------------------
+// sender side: leaves stored with every path encoding (Elem, deprecated
+// Element, mixed, keyed, origin in prefix or path, atomic under element-less /
+// Elem / Element prefixes, literal "*"), then deleted in every way, then the
+// target removed / reset: what the cache queues for a STREAM subscriber
+
+func streamDeletes(emit func(Case)) {
+	targets := []string{"t1", "t2"}
+	iv := TV{K: "int", I: 1}
+	type leaf struct {
+		pf, ph *GPath
+		atomic bool
+	}
+	t1 := func() *GPath { return &GPath{Target: "t1"} }
+	leaves := []leaf{
+		{t1(), &GPath{Elems: names("a", "b")}, false},
+		{t1(), &GPath{Element: []string{"a", "b"}}, false},
+		{&GPath{Target: "t1", Element: []string{"p"}}, &GPath{Element: []string{"x"}}, false},
+		{&GPath{Target: "t1", Elems: names("p")}, &GPath{Element: []string{"x"}}, false},
+		{&GPath{Target: "t1", Element: []string{"p"}}, &GPath{Elems: names("x")}, false},
+		{&GPath{Target: "t1", Element: []string{"p"}}, nil, false},
+		{t1(), &GPath{Elems: longElems(2, 2)}, false},
+		{&GPath{Target: "t1", Origin: "o"}, &GPath{Elems: names("a")}, false},
+		{&GPath{Target: "t1", Origin: "o"}, &GPath{Element: []string{"a"}}, false},
+		{t1(), &GPath{Origin: "o2", Elems: names("a")}, false},
+		{t1(), &GPath{Origin: "o2", Element: []string{"a"}}, false},
+		{&GPath{Target: "t1", Origin: "o"}, &GPath{Elems: names("z")}, true},
+		{&GPath{Target: "t1", Origin: "o"}, nil, true},
+		{&GPath{Target: "t1", Elems: names("c")}, &GPath{Elems: names("z")}, true},
+		{&GPath{Target: "t1", Element: []string{"c"}}, &GPath{Elems: names("z")}, true},
+		{t1(), &GPath{Elems: names("*")}, false},
+		{t1(), &GPath{Element: []string{"*"}}, false},
+		{&GPath{Target: "t1", Origin: "*"}, nil, true},
+		{t1(), &GPath{Elems: longElems(21)}, false},
+		{t1(), &GPath{Element: longNames(21)}, false},
+	}
+	dels := func(l leaf) []Noti {
+		var out []Noti
+		if l.ph != nil && !l.atomic {
+			out = append(out, Noti{TS: 5, Prefix: l.pf, Del: []GPath{*l.ph}})
+		}
+		out = append(out,
+			Noti{TS: 5, Prefix: l.pf, Del: []GPath{{}}},
+			Noti{TS: 5, Prefix: &GPath{Target: "t1"}, Del: []GPath{{Elems: names("*")}}},
+			Noti{TS: 5, Prefix: &GPath{Target: "t1"}, Del: []GPath{{Element: []string{"*"}}}},
+			Noti{TS: 5, Prefix: &GPath{Target: "t1", Origin: l.pf.Origin}, Del: []GPath{{}}},
+			Noti{TS: 5, Prefix: &GPath{Target: "t1"}, Del: []GPath{{Elems: names("*", "*")}, {Elems: names("*")}}})
+		return out
+	}
+	for _, l := range leaves {
+		store := Op{K: "msg", N: &Noti{TS: 1, Prefix: l.pf, Atomic: l.atomic, Upd: []Upd{{Path: l.ph, Val: iv}}}}
+		for i, d := range dels(l) {
+			d := d
+			ops := []Op{store, {K: "msg", N: &d}}
+			switch i % 3 {
+			case 0:
+				ops = append(ops, Op{K: "remove", T: "t1"})
+			case 1:
+				ops = append(ops, store, Op{K: "reset", T: "t1"})
+			case 2:
+				ops = append(ops, Op{K: "refresh"})
+			}
+			emit(Case{Family: "stream-deletes", Kind: "stream", Targets: targets, Ops: ops})
+		}
+	}
+	// everything stored at once, then one delete of the root
+	var all []Op
+	for i, l := range leaves {
+		if i == 1 || i == 8 || i == 10 || i == 16 {
+			continue // same index path as a neighbour in the other encoding
+		}
+		all = append(all, Op{K: "msg", N: &Noti{TS: 1, Prefix: l.pf, Atomic: l.atomic, Upd: []Upd{{Path: l.ph, Val: iv}}}})
+	}
+	for _, d := range []Noti{{TS: 5, Prefix: &GPath{Target: "t1"}, Del: []GPath{{}}}, {TS: 5, Prefix: &GPath{Target: "t1"}, Del: []GPath{{Elems: names("*")}}}} {
+		d := d
+		emit(Case{Family: "stream-deletes", Kind: "stream", Targets: targets, Ops: append(append([]Op{}, all...), Op{K: "msg", N: &d}, Op{K: "remove", T: "t1"})})
+	}
+}
+
+// ---------------------------------------------------------------------------
+// boundary values of every numeric wire field, in scalar and leaf-list
+// position, for the receive path and the CLI
+
+func extremeValues() []TV {
+	var out []TV
+	for _, p := range []uint32{0, 1, 17, 18, 19, 20, 308, 1 << 31, math.MaxUint32} {
+		for _, d := range []int64{0, 1, -1, math.MinInt64, math.MaxInt64} {
+			out = append(out, TV{K: "decimal", I: d, P: p})
+		}
+	}
+	out = append(out, TV{K: "decimalnil"},
+		TV{K: "int", I: math.MinInt64}, TV{K: "int", I: math.MaxInt64}, TV{K: "uint", U: math.MaxUint64}, TV{K: "uint"},
+		TV{K: "double", U: 0x7ff0000000000000}, TV{K: "double", U: 0xfff0000000000000}, TV{K: "double", U: f64nan},
+		TV{K: "double", U: 0x7fefffffffffffff}, TV{K: "double", U: 1},
+		TV{K: "float", U: 0x7f800000}, TV{K: "float", U: 0x7fc00000}, TV{K: "float", U: 0x7f7fffff}, TV{K: "float", U: 1})
+	return out
+}
+
+func extremeResps(emit func(Case)) {
+	vals := extremeValues()
+	ph := &GPath{Elems: names("a", "b")}
+	for i, v := range vals {
+		inList := TV{K: "leaflist", L: []TV{{K: "int", I: 1}, v}}
+		nested := TV{K: "leaflist", L: []TV{{K: "leaflist", L: []TV{v}}}}
+		ts := []int64{math.MinInt64, -1, 0, math.MaxInt64}[i%4]
+		ops := []Op{
+			{K: "resp", R: &Resp{K: "update", N: &Noti{TS: ts, Prefix: &GPath{Target: "t"}, Upd: []Upd{{Path: ph, Val: v}}}}},
+			{K: "resp", R: &Resp{K: "update", N: &Noti{TS: 1, Prefix: &GPath{Target: "t"}, Upd: []Upd{{Path: &GPath{Elems: names("l")}, Val: inList}}}}},
+			{K: "resp", R: &Resp{K: "sync"}},
+			{K: "resp", R: &Resp{K: "update", N: &Noti{TS: ts, Prefix: &GPath{Target: "t"}, Upd: []Upd{{Path: &GPath{Elems: names("n")}, Val: nested}}, Del: []GPath{*ph}}}},
+		}
+		emit(Case{Family: "recv-extremes", Kind: "recv", QT: []string{"once", "poll", "stream"}[i%3], Ops: ops})
+		emit(Case{Family: "cli-extremes", Kind: "cli", DT: []string{"group", "single", "proto"}[i%3], QT: []string{"stream", "once"}[i%2], TS: i%4 == 0, Ops: ops})
+		if i%3 != 0 {
+			emit(Case{Family: "cli-extremes", Kind: "cli", DT: "group", QT: "stream", Ops: ops})
+		}
+	}
+}
+
+// ---------------------------------------------------------------------------
 // extreme values of the numeric fields: every ordered pair of timestamps from
 // {min int64, -1, 0, 1, max int64 - 1, max int64} on one leaf (comparison, not
 // subtraction, decides staleness), then a delete at each of them
